@@ -188,6 +188,15 @@ def execute(case):
                 twin = Runner(t)
             except Exception:
                 twin = None
+        # second twin: the object itself (deep copy) with both views brought up to date.  It keeps the object's own order
+        # of equal-tick messages, on which an operation may legitimately depend and which the projected content does not fix
+        twin2 = None
+        try:
+            t2 = copy.deepcopy(real.seq)
+            t2.refresh()
+            twin2 = Runner(t2)
+        except Exception:
+            twin2 = None
         for f in fine:
             stale_raised, raised = False, ""
             planned = f
@@ -199,6 +208,7 @@ def execute(case):
                 raised = f"{type(e).__name__}: {e}"
                 stale_raised = is_stale_exc(e)
             exp = {"readable": False, "abs": [], "rel": []}
+            exp2 = {"readable": False, "abs": [], "rel": []}
             traised = ""
             if twin is not None:
                 try:
@@ -206,6 +216,12 @@ def execute(case):
                 except Exception as e:
                     traised = f"{type(e).__name__}: {e}"
                 exp = P.views(twin.seq)
+            if twin2 is not None and real.gen is None and planned not in ("iter_close",):
+                try:
+                    twin2.step(planned)
+                    exp2 = P.views(twin2.seq)
+                except Exception:
+                    exp2 = {"readable": False, "abs": [], "rel": []}
             post = P.views(real.seq)
             if f in ("iter_edit",):
                 # during a generator turn the iterated view IS the content: the expected content after an in-turn
@@ -227,7 +243,7 @@ def execute(case):
                 bits = [bool(real.seq._abs_stale), bool(real.seq._rel_stale)]
             ln = {"kind": "step", "grp": grp, "first": first, "op": f, "public": op, "start": node,
                   "pre": {"readable": pre["readable"], "abs": pre["abs"]} if first else {"readable": True, "abs": []},
-                  "post": post, "exp": exp, "stale_raised": stale_raised, "raised": raised, "twin_raised": traised,
+                  "post": post, "exp": exp, "exp2": exp2, "stale_raised": stale_raised, "raised": raised, "twin_raised": traised,
                   "bits": bits, "turn": list(turn), "case": {"content": ci, "start": node, "ops": ops}}
             lines.append(ln)
             first = False
